@@ -59,6 +59,14 @@ theorem bind_ne_panic {α β} (x : R α) (f : α → R β) (hx : x ≠ .error .p
   · exact hx h
   · exact hf a ha hfa
 
+@[simp] theorem reqAll_ok {α} (o : Option α) (p : α → Prop) [DecidablePred p] (u : Unit) :
+    reqAll o p = .ok u ↔ ∀ a, o = some a → p a := by
+  unfold reqAll; cases o <;> simp
+
+@[simp] theorem reqAll_ne_panic {α} (o : Option α) (p : α → Prop) [DecidablePred p] :
+    reqAll o p ≠ .error .panic := by
+  unfold reqAll; cases o <;> simp
+
 theorem R.cases_ok {α} (x : R α) : (∃ a, x = .ok a) ∨ x = .error .err ∨ x = .error .panic := by
   cases x with
   | ok a => exact Or.inl ⟨a, rfl⟩
